@@ -10,24 +10,40 @@ def sig_of(rej, scn):
     who = rej.get("who") or ""
     if rej.get("why") == "panic":
         who = who.split(":")[0]
-    return "C18:%s:%s:%s%s" % (rej.get("why"), who, "+".join(rej.get("fld") or []), ":legacy" if d.get("Legacy") else "")
+    fld = rej.get("fld") or []
+    linked = "link" not in fld and any((x.get("S") or {}).get("L") for x in d.get("Cells") or [])
+    return "C18:%s:%s:%s%s%s" % (rej.get("why"), who, "+".join(fld), ":hyperlinked" if linked else "",
+                                 ":legacy" if d.get("Legacy") else "")
 
 
 def binding_selftest(c, specs, td, rejected):
     """Corrupt one recorded field of an accepted scenario: TLC must reject it (guards against a vacuous trace spec)."""
     import vcheck
     src = os.path.join(td, "shard00.ndjson")
-    lines, n = [], 0
-    with open(src) as f:
-        for line in f:
-            e = json.loads(line)
-            if e["ev"] == "reset" and lines:
-                if any(x["ev"] == "end" and x["in"] for x in lines) and lines[0]["scn"] not in rejected:
-                    break
-                lines = []
-            lines.append(e)
-    end = [x for x in lines if x["ev"] == "end" and x["in"]]
-    if not end or lines[0]["scn"] in rejected:
+
+    def first_accepted(linked):
+        """first accepted producer scenario of shard 0 without (with) hyperlink control strings; with: the last
+        control string closes the link and the producer is a codec"""
+        def fits(ls):
+            if not any(x["ev"] == "end" and x["in"] for x in ls) or ls[0]["scn"] in rejected:
+                return False
+            o = [i for i, x in enumerate(ls) if x["ev"] == "osc8"]
+            if not linked:
+                return not o
+            return bool(o) and ls[o[-1]]["ln"] == 0 and ls[-1]["prod"] in ("cells", "ss")
+        lines = []
+        with open(src) as f:
+            for line in f:
+                e = json.loads(line)
+                if e["ev"] == "reset" and lines:
+                    if fits(lines):
+                        return lines
+                    lines = []
+                lines.append(e)
+        return lines if fits(lines) else None
+
+    lines = first_accepted(False)
+    if not lines:
         c.notes.append("binding self-test skipped: no accepted scenario in shard 0")
         return
     variants = []
@@ -43,6 +59,17 @@ def binding_selftest(c, specs, td, rejected):
     k = max(i for i, x in enumerate(v) if x["ev"] == "end")
     v.insert(k, {"ev": "sgr", "seqs": [[[1]]], "scn": v[0]["scn"]})
     variants.append(("any", v))
+    ll = first_accepted(True)
+    if ll:
+        # hyperlinks: the closing control string removed (link left open); the producer's own parser misreads
+        v = json.loads(json.dumps(ll))
+        k = max(i for i, x in enumerate(v) if x["ev"] == "osc8")
+        del v[k]
+        variants.append(("noreset", v))
+        v = json.loads(json.dumps(ll))
+        e = [x for x in v if x["ev"] == "end"][0]
+        e["dec"]["parse" if e["prod"] == "cells" else "nss"][-1][0] += 1
+        variants.append(("consumer", v))
     d = os.path.join(c.scratch, "selftest")
     os.makedirs(d, exist_ok=True)
     def one(arg):
@@ -91,8 +118,11 @@ def main(c):
     specs = c.stage_specs("term", "codec")
     c.assumptions += [
         "harness lexer (ECMA-48 tokenizer) and uniseg grapheme segmentation are trusted base",
-        "domain: cells without hyperlinks whose graphemes are single printable clusters that segment back from their "
-        "concatenation; widths are not part of the property",
+        "domain: cells whose graphemes are single printable clusters that segment back from their concatenation "
+        "(a cell with an empty grapheme has no representation in a string); widths are not part of the property",
+        "hyperlinked cells (codecs only): graphemes, colours, attributes and underline must come back through the "
+        "producer's own parser and the string must not leave a hyperlink open; whether the link itself comes back, and "
+        "what the other consumers make of a hyperlink control string, is not demanded",
         "the renderer is lossless (round trip demanded) only when the terminal advertises direct colour and styled "
         "underlines; under a fallback only 'every consumer reads what it wrote alike' and 'ends reset' are demanded",
         "arbitrary parameter lists: only absence of panics is demanded (the property demands agreement for sequences "
@@ -130,8 +160,8 @@ def main(c):
     return c.finish(
         rule="scenario = one producer (EncodeCells | StyledString.Encode | renderer of a real Vaxis) x one cell sequence "
              "(style chains covering every ordered attribute-mask pair, every ordered pair of colour-class triples, "
-             "underline style x colour pairs, the whole palette; random Unicode sequences incl. empty and multi-buffer "
-             "ones; colon and legacy-semicolon spelling; capability fallbacks), or 50 arbitrary parameter lists for the "
+             "underline style x colour pairs, the whole palette; hyperlink-state pairs beside style changes (codecs); "
+             "random Unicode sequences incl. empty and multi-buffer ones; colon and legacy-semicolon spelling; capability fallbacks), or 50 arbitrary parameter lists for the "
              "three consumers; the producer's lexed output is interpreted by SGR!Apply and must equal the input cells, "
-             "end at the default pen and be read identically by ParseStyledString, NewStyledString and the emulator; "
+             "end at the default pen with no hyperlink open and be read identically by ParseStyledString, NewStyledString and the emulator; "
              "distinct = distinct scenario descriptor; pair coverage is measured by the driver (coverage.c18)")
